@@ -19,7 +19,6 @@ func (t *Transaction) VResultChan() any         { return t.resultCh }
 func (m *TransactionMap) VEntries() map[string]*Transaction { return m.trMap }
 
 // Constants of the client package needed by the schedule lemma (root package harness).
-func VMaxRtxInterval() time.Duration         { return maxRtxInterval }
 func VMaxRetryAttempts() int                 { return maxRetryAttempts }
 func VDefaultPermRefresh() time.Duration     { return defaultPermRefreshInterval }
 func VDefaultBindingRefresh() time.Duration  { return defaultBindingRefreshInterval }
